@@ -501,7 +501,9 @@ impl JsValue {
             JsVariant::Integer32(0) | JsVariant::Boolean(false) | JsVariant::Null => {
                 Self::new(-0.0)
             }
-            JsVariant::Integer32(num) => Self::new(-num),
+            JsVariant::Integer32(num) => num
+                .checked_neg()
+                .map_or_else(|| Self::new(-f64::from(num)), Self::new),
             JsVariant::Boolean(true) => Self::new(-1),
             JsVariant::BigInt(x) => Self::new(JsBigInt::neg(&x)),
         })
